@@ -341,7 +341,35 @@ fn run_shard(exe: &str, build: &str, seed: u64, workload: &str, lo: u64, hi: u64
         let out = child.stdout.take().unwrap();
         let mut started: Option<u64> = None;
         let mut finished: Option<u64> = None;
+        // silence watchdog: a case normally takes milliseconds; kill the worker after 90 s without any output line
+        let last_line = std::sync::Arc::new(std::sync::atomic::AtomicU64::new(0));
+        let done = std::sync::Arc::new(std::sync::atomic::AtomicBool::new(false));
+        let hung = std::sync::Arc::new(std::sync::atomic::AtomicBool::new(false));
+        let pid = child.id();
+        {
+            let (last_line, done, hung) = (last_line.clone(), done.clone(), hung.clone());
+            std::thread::spawn(move || {
+                let mut seen = 0u64;
+                let mut idle = 0u64;
+                while !done.load(std::sync::atomic::Ordering::Relaxed) {
+                    std::thread::sleep(std::time::Duration::from_secs(1));
+                    let now = last_line.load(std::sync::atomic::Ordering::Relaxed);
+                    if now == seen {
+                        idle += 1;
+                    } else {
+                        seen = now;
+                        idle = 0;
+                    }
+                    if idle >= 90 {
+                        hung.store(true, std::sync::atomic::Ordering::Relaxed);
+                        let _ = Command::new("kill").args(["-9", &pid.to_string()]).status();
+                        break;
+                    }
+                }
+            });
+        }
         for line in BufReader::new(out).lines() {
+            last_line.fetch_add(1, std::sync::atomic::Ordering::Relaxed);
             let line = match line {
                 Ok(l) => l,
                 Err(_) => break,
@@ -386,9 +414,19 @@ fn run_shard(exe: &str, build: &str, seed: u64, workload: &str, lo: u64, hi: u64
             }
         }
         let status = child.wait();
+        done.store(true, std::sync::atomic::Ordering::Relaxed);
         let ok = status.as_ref().map(|s| s.success()).unwrap_or(false);
         if ok {
             return;
+        }
+        if hung.load(std::sync::atomic::Ordering::Relaxed) {
+            // wall clock is not a verdict: report the case, continue after it
+            if let Some(s) = started {
+                acc.inconclusive(format!("case {} of workload {} ({} build) produced no result within 90 s and was killed (possible non-termination); replay it with --replay", s, workload, build));
+                acc.cov("watchdog:killed-cases");
+                cur = s + 1;
+                continue;
+            }
         }
         // the worker died: the case that was started and not finished is the culprit
         match started {
@@ -463,6 +501,105 @@ pub fn run(ctx: &Ctx) -> i32 {
                 acc.merge(a);
             }
             let _ = wl_name;
+        }
+    }
+    // ---- the binary itself (release, and an unoptimised debug build: deep recursion costs far more stack there)
+    // over directories of parser-accepted catalogue programs: exit status 0 and a report, else the culprit file is isolated
+    if ctx.replay.is_none() || ctx.replay.as_ref().map(|r| r.0 == "binary").unwrap_or(false) {
+        let tdir = std::env::var("VMON_TARGET_DIR").unwrap_or_else(|_| "target".to_string());
+        let tdir = if tdir.starts_with('/') { tdir } else { format!("{}/{}", VERIF_DIR, tdir) };
+        let bins = [("release", format!("{}/release/solstat", tdir)), ("debug", format!("{}/debug/solstat", tdir))];
+        let cat: Vec<(String, String)> = catalogue().into_iter().filter(|(n, t)| dets::parses(t) && !n.contains(":1000") && !n.starts_with("literal-digits")).collect();
+        for (bname, bin) in bins.iter() {
+            if !std::path::Path::new(bin).exists() {
+                acc.inconclusive(format!("{} build of the solstat binary not found at {} (run ./check C04)", bname, bin));
+                continue;
+            }
+            let chunk = 40usize;
+            let nchunks = (cat.len() + chunk - 1) / chunk;
+            let accs = std::sync::Mutex::new(Vec::<Acc>::new());
+            let next = std::sync::atomic::AtomicUsize::new(0);
+            std::thread::scope(|s| {
+                for _ in 0..ctx.threads.min(nchunks).max(1) {
+                    s.spawn(|| {
+                        let mut a = Acc::default();
+                        a.cur_workload = "binary".to_string();
+                        loop {
+                            let ci = next.fetch_add(1, std::sync::atomic::Ordering::Relaxed);
+                            if ci >= nchunks {
+                                break;
+                            }
+                            let files = &cat[ci * chunk..((ci + 1) * chunk).min(cat.len())];
+                            let dir = crate::mon::c11::scratch_dir("c04bin");
+                            std::fs::create_dir_all(format!("{}/contracts", dir)).unwrap();
+                            for (j, (_, t)) in files.iter().enumerate() {
+                                std::fs::write(format!("{}/contracts/F{}.sol", dir, j), t).unwrap();
+                            }
+                            let run = |d: &str| -> Option<(Option<i32>, String)> {
+                                let mut child = Command::new(bin).current_dir(d).stdin(Stdio::null()).stdout(Stdio::null()).stderr(Stdio::piped()).spawn().ok()?;
+                                // generous silence limit; a kill here is reported as inconclusive
+                                let start = std::time::Instant::now();
+                                loop {
+                                    match child.try_wait() {
+                                        Ok(Some(st)) => {
+                                            let mut e = String::new();
+                                            if let Some(mut se) = child.stderr.take() {
+                                                use std::io::Read;
+                                                let _ = se.read_to_string(&mut e);
+                                            }
+                                            return Some((st.code(), e));
+                                        }
+                                        Ok(None) => {
+                                            if start.elapsed().as_secs() > 300 {
+                                                let _ = child.kill();
+                                                return None;
+                                            }
+                                            std::thread::sleep(std::time::Duration::from_millis(20));
+                                        }
+                                        Err(_) => return None,
+                                    }
+                                }
+                            };
+                            a.cur_k = ci as u64;
+                            match run(&dir) {
+                                Some((Some(0), _)) if std::path::Path::new(&format!("{}/solstat_report.md", dir)).exists() => {
+                                    a.evals_n(files.len() as u64);
+                                    a.cov_n(&format!("binary:{}:files-analysed", bname), files.len() as u64);
+                                }
+                                Some((code, err)) => {
+                                    // isolate: one file per run
+                                    let mut found = false;
+                                    for (j, (n, t)) in files.iter().enumerate() {
+                                        let d1 = crate::mon::c11::scratch_dir("c04bin1");
+                                        std::fs::create_dir_all(format!("{}/contracts", d1)).unwrap();
+                                        std::fs::write(format!("{}/contracts/F{}.sol", d1, j), t).unwrap();
+                                        if let Some((c1, e1)) = run(&d1) {
+                                            if c1 != Some(0) {
+                                                found = true;
+                                                let kind = if e1.contains("overflowed its stack") || c1.is_none() { "stack-overflow-or-signal" } else { "panic" };
+                                                a.violation(format!("binary-abort:{}:{}", bname, kind), json!({"build": bname, "catalogue_item": n, "exit": c1, "stderr": trunc(&e1, 500), "text": trunc(t, 3000)}));
+                                            }
+                                        }
+                                        let _ = std::fs::remove_dir_all(&d1);
+                                        if found {
+                                            break;
+                                        }
+                                    }
+                                    if !found {
+                                        a.violation(format!("binary-abort:{}:only-in-a-directory-of-files", bname), json!({"build": bname, "exit": code, "stderr": trunc(&err, 500), "files": files.iter().map(|f| f.0.clone()).collect::<Vec<_>>()}));
+                                    }
+                                }
+                                None => a.inconclusive(format!("the {} binary did not finish within 300 s on a directory of {} catalogue files", bname, files.len())),
+                            }
+                            let _ = std::fs::remove_dir_all(&dir);
+                        }
+                        accs.lock().unwrap().push(a);
+                    });
+                }
+            });
+            for a in accs.into_inner().unwrap() {
+                acc.merge(a);
+            }
         }
     }
     acc.viol.sort_by(|a, b| (a.workload.as_str(), a.k).cmp(&(b.workload.as_str(), b.k)));
